@@ -18,11 +18,13 @@ Record rquirks := {
                                     tree-sitter keeps macro arguments as a token tree *)
   q_test_attr_substring : bool;  (* a function counts as a test when an attribute merely contains "test" *)
   q_cfg_test_literal    : bool;  (* a module counts as test code only when an attribute contains the text "cfg(test)" *)
-  q_attr_stop_at_comment: bool;  (* the attribute walk stops at a comment between attribute and item *)
+  q_attr_stop_at_comment: bool;  (* the attribute walk passes over exactly the sibling types the source names
+                                    (true) / over comments in any case (false).  Since def5e3f the source names them. *)
   q_chain_start_line    : bool;  (* a method call is reported at the line where its receiver chain starts *)
   q_for_header_in_loop  : bool;  (* the iterator expression of `for` counts as inside the loop *)
   q_clone_first_pattern : bool;  (* a clone is classified before the detect_* switches are consulted *)
-  q_net_bare_type       : bool;  (* TcpStream::connect(...) (type imported by `use`) is not recognised *)
+  q_net_bare_type       : bool;  (* call-path patterns exactly as in the source (true) / plus the NetType::method form
+                                    (false).  Since e1a1fd7 the source has that form. *)
 }.
 Definition ideal : rquirks := Build_rquirks false false false false false false false false.
 
@@ -79,19 +81,31 @@ Definition push_m (q : rquirks) (anc : list frame) (k : kind) (i : nat) (rest : 
 Definition attr_hit (needle : string) (semantic : string -> bool) (substring : bool) (text : string) : bool :=
   if substring then contains needle text else semantic text.
 
-(* has_test_attribute / has_cfg_test_attribute: scan preceding siblings while they are attribute items *)
-Fixpoint sib_walk (q : rquirks) (hit : string -> bool) (pre : list sib) : bool :=
+(* has_test_attribute / has_cfg_test_attribute: scan the preceding siblings while their type is in the run table,
+   testing the siblings of the attribute type.  sib_type is the parser's node type (comments rendered by the
+   harness are line comments).  The run table is the source's (_ATTRIBUTE_RUN_TYPES since def5e3f; before, the
+   scan stopped at anything but an attribute); with the quirk off comments are passed over whatever the source says. *)
+Definition sib_type (s : sib) : string := match s with SAttr _ => "attribute_item" | SComment => "line_comment" end.
+Definition run_types (q : rquirks) (from_source : list string) : list string :=
+  if q_attr_stop_at_comment q then from_source else "line_comment" :: "block_comment" :: from_source.
+
+Fixpoint sib_walk (run : list string) (ty : string) (hit : string -> bool) (pre : list sib) : bool :=
   match pre with
   | [] => false
-  | SAttr t :: r => if hit t then true else sib_walk q hit r
-  | SComment :: r => if q_attr_stop_at_comment q then false else sib_walk q hit r
+  | s :: r =>
+    if smem (sib_type s) run then
+      if String.eqb (sib_type s) ty && match s with SAttr t => hit t | SComment => false end then true
+      else sib_walk run ty hit r
+    else false
   end.
 
 Definition is_test_context (q : rquirks) (f : frame) : bool :=
   if String.eqb (f_type f) ctx_fn_type
-  then sib_walk q (attr_hit test_attr_needle attr_is_test_fn (q_test_attr_substring q)) (f_pre f)
+  then sib_walk (run_types q test_attr_run_types) test_attr_sibling_type
+                (attr_hit test_attr_needle attr_is_test_fn (q_test_attr_substring q)) (f_pre f)
   else if String.eqb (f_type f) ctx_mod_type
-  then sib_walk q (attr_hit cfg_attr_needle attr_is_cfg_test (q_cfg_test_literal q)) (f_pre f)
+  then sib_walk (run_types q cfg_attr_run_types) cfg_attr_sibling_type
+                (attr_hit cfg_attr_needle attr_is_cfg_test (q_cfg_test_literal q)) (f_pre f)
   else false.
 
 (* is_inside_test: the node itself is a call_expression, so only its ancestors matter *)
